@@ -1166,7 +1166,12 @@ func simpleArm(b *ssa.BasicBlock) bool {
 			if !last {
 				return false
 			}
-		case *ssa.BinOp, *ssa.Convert, *ssa.ChangeType, *ssa.IndexAddr, *ssa.FieldAddr, *ssa.Store, *ssa.DebugRef, *ssa.Field, *ssa.Index, *ssa.Slice:
+		case *ssa.BinOp, *ssa.Convert, *ssa.ChangeType, *ssa.IndexAddr, *ssa.FieldAddr, *ssa.DebugRef, *ssa.Field, *ssa.Index, *ssa.Slice:
+		case *ssa.Store:
+			// only scalar stores can be guarded (merged with ite)
+			if !scalarType(x.Val.Type()) {
+				return false
+			}
 		case *ssa.UnOp:
 			if x.Op == token.ARROW {
 				return false
@@ -1181,6 +1186,11 @@ func simpleArm(b *ssa.BasicBlock) bool {
 		}
 	}
 	return true
+}
+
+func scalarType(t types.Type) bool {
+	b, ok := t.Underlying().(*types.Basic)
+	return ok && b.Info()&(types.IsInteger|types.IsBoolean|types.IsFloat) != 0
 }
 
 func (ex *Exec) ifConvert(g *Goroutine, fr *Frame, cond *Term) bool {
@@ -1208,7 +1218,16 @@ func (ex *Exec) ifConvert(g *Goroutine, fr *Frame, cond *Term) bool {
 	default:
 		return false
 	}
-	// the join's phis must only merge scalars/mergeable values; checked when merging
+	// the join's phis must only merge scalars
+	for _, in := range join.Instrs {
+		phi, ok := in.(*ssa.Phi)
+		if !ok {
+			break
+		}
+		if !scalarType(phi.Type()) {
+			return false
+		}
+	}
 	saved := ex.guard
 	for _, a := range arms {
 		if saved != nil {
